@@ -11,19 +11,25 @@ PLAN = {
     "level": "proof",
     "manifest": {
         "technique": "Kani/CBMC function contracts on the real Histogram (arbitrary symbolic pre-state), Matcher, DistributionBuilder, "
-                     "RollingSummary (first sample) and Distribution::record_samples; Verus spec-level lemma for first-fit + prefix-sum == per-bound counting",
+                     "RollingSummary (first sample, snapshot) and Distribution::record_samples; Verus (unbounded) on the extracted real text of RollingSummary::{new,add}, "
+                     "Matcher::matches, DistributionBuilder::{new (sort closure), get_distribution, get_distribution_type}; Verus spec-level lemma for first-fit + prefix-sum == per-bound counting",
         "text": "Histogram::record and record_many are checked against per-call contracts over an ARBITRARY pre-state (symbolic bounds, per-bound counts, "
                 "count) and every f64 sample incl. NaN/inf/-0: buckets'[i] == buckets[i] + #{s <= bounds[i]}, count' == count + |S|, cumulative order and "
                 "last <= count (+Inf) preserved for ascending bounds; 'after any sequence / any batching' follows by induction over calls, and is also "
                 "checked directly on bounded sequences and splits. The Verus lemma proves, for any number of bounds and samples, that record_many's "
                 "algorithm (first matching bound, then prefix sums) equals per-bound counting exactly when bounds ascend. On the exporter side: Matcher "
                 "semantics and order Full < Prefix < Suffix, DistributionBuilder's choice (full, prefix, suffix, global, else summary) and type string, "
-                "RollingSummary new/first add/snapshot window cut for every pair of instants, record_samples(histogram) == record_many.",
-        "note": "All Kani harnesses that touch a vector are bounded in its length (<= 4 bounds, batches <= 3). Not machine-checked (tool limits, see "
-                "assumptions): DistributionBuilder::new's collect+sort, RollingSummary with more than one bucket (in-bucket add, expiry, alignment, "
-                "truncate/insert, multi-bucket merge), record_samples' summary arm, sanitisation of names/matchers, DDSketch quantile accuracy.",
+                "RollingSummary new/first add/snapshot window cut for every pair of instants, record_samples(histogram) == record_many. Verus proves, for any "
+                "number of buckets / overrides and all instants, durations and strings: RollingSummary::add files every sample with a non-decreasing timestamp into exactly one "
+                "bucket whose interval contains it, keeps buckets newest-first, disjoint and <= max_buckets, removes only buckets older than the window (or beyond the cap), "
+                "count counts every sample; DistributionBuilder::new orders the overrides full < prefix < suffix, get_distribution returns the first match in that order, else "
+                "the global buckets, else a summary with the configured / default window, and get_distribution_type says \"histogram\" exactly then.",
+        "note": "All Kani harnesses that touch a vector are bounded in its length (<= 4 bounds, batches <= 3). Assumed in the Verus templates: std's "
+                "Vec::retain / sort_by / HashMap collect contracts, quanta Instant = u64 ns, Duration < 2^64 ns, derived Ord on Matcher (Kani-checked on literals), "
+                "str starts_with/ends_with/== as sequence prefix/suffix/equality. Not machine-checked: the multi-bucket merge in snapshot (Kani covers one bucket), "
+                "grid alignment of bucket starts, record_samples' summary arm, sanitisation of names/matchers, DDSketch quantile accuracy.",
     },
-    "min_obligations": {"quick": 10, "thorough": 10},
+    "min_obligations": {"quick": 20, "thorough": 20},
     "assumptions": [
         "vector lengths are bounded in every Kani harness (<= 4 bucket bounds, batches <= 3, sequences <= 3 operations); bounds, counts, count, sum and "
         "samples are unrestricted f64/u64 (no u64 counter overflow: < 2^64 - 3 samples)",
@@ -32,18 +38,19 @@ PLAN = {
         "gives bit-identical buckets and count but the f64 sum may differ in the last bits (floating-point addition is not associative) -- the "
         "'identical results' clause is checked for buckets and count only; noted, not reported as a violation",
         "+Inf bucket: the renderer prints it from Histogram::count(); checked here as count == number of samples and last finite bucket <= count",
-        "DistributionBuilder::new is NOT executed (HashMap cannot run under Kani; std's slice sort ran CBMC out of memory): lines 97-101 of distribution.rs "
-        "(collect + sort_by(|a,b| a.0.cmp(&b.0))) are covered by inspection only; the harness writes the override vector in sorted order, checks that order "
-        "with the real Matcher::cmp, and assumes std's sort sorts",
+        "DistributionBuilder::new is not executed under Kani (HashMap cannot run; std's slice sort ran CBMC out of memory); its collect+sort closure is instead "
+        "lifted (R29) and proved in builder.verus.rs against assumed std contracts for collect (each entry once) and sort_by (a permutation in which no earlier "
+        "element compares Greater than a later one) and the assumed derived Ord on Matcher (variant order first; Kani c15_matcher_order checks the real derive)",
         "builder harnesses run 16 concrete configurations ({global} x {overrides} x 4 names against Full(ab), Prefix(a), Suffix(b)); the chosen override is "
         "identified by giving every other candidate an empty bucket list (new_histogram then panics); several matching overrides of the same kind (the "
         "lexicographically first wins) are not exercised",
         "Matcher semantics are checked on 8 literal strings of <= 4 bytes (no symbolic String under Kani); sanitisation (Matcher::sanitized, "
         "sanitize_metric_name: 'names before/after sanitisation') is NOT checked here",
-        "RollingSummary: only new(), the first add and a later snapshot are machine-checked (for every pair of instants < 2^60 ns, durations 7 ns / 20 s, "
-        "1..3 buckets, values 0, 1e-10, -5e-10, +inf). Any Summary::add or retain/insert/truncate on a bucket already stored in the Vec makes CBMC explore "
-        "DDSketch's logarithmic store (measured: > 15 min / > 15 GB for two adds even with concrete instants), so lines 200-212 (in-bucket add), 215-217 "
-        "(expiry), 229-246 (grid alignment, truncate, insert) and the multi-bucket merge in snapshot are covered by the repository's unit tests only",
+        "RollingSummary under Kani: only new(), the first add and a later snapshot (for every pair of instants < 2^60 ns, durations 7 ns / 20 s, 1..3 buckets, "
+        "values 0, 1e-10, -5e-10, +inf); any Summary::add on a stored bucket makes CBMC explore DDSketch's store (> 15 min / > 15 GB). The general add (in-bucket "
+        "add, expiry, stepping to the new bucket, truncate, insert) is proved by Verus in rolling.verus.rs with Summary as a ghost sequence of samples, under the "
+        "precondition 'non-decreasing sample timestamps' (no stored bucket begins after `now`) and now + 2*duration < 2^64 ns; rewrites R33 (for over &mut Vec -> "
+        "index loop), R35 (a += d -> a = a + d), SPEC-closure on the retain predicate. The multi-bucket merge in snapshot stays with the unit tests",
         "window granularity: snapshot keeps a bucket iff its begin is younger than count*duration; a sample younger than the window but filed in a bucket "
         "that began earlier is dropped with its bucket (up to one duration early). The statement's 'within the rolling window' is read with that "
         "bucket granularity; with a single expired bucket the rendered quantile is 0 although a sample younger than count*duration exists",
@@ -57,6 +64,13 @@ PLAN = {
     "verus": [
         # spec-level, unbounded in the number of bounds and samples: prefix sums of first-fit counts == per-bound counts for ascending bounds
         {"template": "prefix.verus.rs", "tier": "quick", "rlimit": 40, "min_functions": 3},
+        # unbounded, on the extracted real text: RollingSummary::{new, add} against the bucket-list contract (every sample with a
+        # non-decreasing timestamp is filed into exactly one bucket whose interval contains it; newest first, disjoint, <= max_buckets;
+        # only expired buckets are removed, up to the cap; count counts all)
+        {"template": "rolling.verus.rs", "tier": "quick", "rlimit": 60, "min_functions": 3},
+        # unbounded: Matcher::matches, DistributionBuilder::new's collect+sort closure (lifted), get_distribution,
+        # get_distribution_type against "full-name override first, then prefix, then suffix, then global buckets, else summary"
+        {"template": "builder.verus.rs", "tier": "quick", "rlimit": 40, "min_functions": 6},
     ],
     "kani": [{
         "crate": "metrics-util",
